@@ -259,6 +259,7 @@ func (p *printer) body(m *Message) {
 			done[f.Oneof] = true
 			p.t("oneof", m.Oneofs[f.Oneof], "{")
 			p.nl()
+			p.optStmts(m.OneofOpts[f.Oneof])
 			for _, g := range m.Fields {
 				if g.Oneof == f.Oneof {
 					p.field(g)
@@ -276,7 +277,15 @@ func (p *printer) body(m *Message) {
 	for _, e := range m.Enums {
 		p.enum(e)
 	}
-	p.ranges("extensions", m.ExtRanges, MaxField)
+	if len(m.ExtRanges) > 0 && len(m.ExtRangeOpts) > 0 {
+		// extensions 1 to 5, 9 [opts];
+		p.ranges("extensions", m.ExtRanges, MaxField)
+		p.toks = p.toks[:len(p.toks)-1] // drop the ";"
+		p.compactOpts(m.ExtRangeOpts)
+		p.stmtEnd()
+	} else {
+		p.ranges("extensions", m.ExtRanges, MaxField)
+	}
 	p.ranges("reserved", m.Reserved, MaxField)
 	p.reservedNames(m.ReservedNames, m.Editions)
 	for _, e := range m.Extends {
@@ -397,6 +406,9 @@ func (w *Workspace) PrintAll() map[string]string {
 	out := map[string]string{}
 	for _, f := range w.Files {
 		out[f.Name] = Print(f)
+	}
+	for k, v := range w.Extra {
+		out[k] = v
 	}
 	return out
 }
